@@ -32,6 +32,9 @@ def handle (op real : String) : Verdict := Id.run do
     | 't' => topo := topo + 1; s := step s (.backendEvent topo .topology)
     | 'u' => topo := topo + 1; s := step s (.backendEvent topo .status)
     | 'x' => s := step s .controlFailover
+    | 'y' => match arg.splitOn ":" with
+      | k :: _ => s := step (step s .controlFailover) (.backendEvent (k.toNat?.getD 0) .schema)
+      | _ => pure ()
     | _ => pure ()
   let parts := (List.range n).map fun i =>
     s!"{i}={",".intercalate ((s.delivered.filter (·.1 = i)).map fun e => toString e.2)}"
